@@ -1369,7 +1369,13 @@ func toAbsoluteName(name, origin string) (absolute string, ok bool) {
 	if origin == "" {
 		return "", false
 	}
-	return appendOrigin(name, origin), true
+
+	// name was checked on its own; with the origin appended it may exceed the 255 octet limit
+	absolute = appendOrigin(name, origin)
+	if _, ok = IsDomainName(absolute); !ok {
+		return "", false
+	}
+	return absolute, true
 }
 
 func appendOrigin(name, origin string) string {
